@@ -237,19 +237,37 @@ Definition parse_path_c (ctx : context) (st : scheme_type) (has_host : bool) (pa
            (ser : list N) (l : list N) : pres (list N * bool * list N) * N :=
   parse_path_loop_c ctx st path_start l ser (nlen ser) [] has_host.
 
+(* the skip test of extend(): Iterator::eq of the tab / LF / CR-free characters of the segment with k dots
+   (k = 1: ".", k = 2: "..") - a forward scan, one step per character of the segment that is examined *)
+Fixpoint dots_eq_c (k : nat) (l : list N) : bool * N :=
+  match l with
+  | [] => (match k with O => true | S _ => false end, 0)
+  | c :: r =>
+      if is_tnl c then let (b, n) := dots_eq_c k r in (b, n + 1)
+      else match k with
+           | O => (false, 1)
+           | S k' => if c =? 46 then let (b, n) := dots_eq_c k' r in (b, n + 1) else (false, 1)
+           end
+  end.
+(* seen.clone().eq(".".chars()) || seen.eq("..".chars()) *)
+Definition psm_skips_c (seg : list N) : bool * N :=
+  let (b1, n1) := dots_eq_c 1 seg in
+  if b1 then (true, n1) else let (b2, n2) := dots_eq_c 2 seg in (b2, n1 + n2).
+
 (* PathSegmentsMut::extend: one parse_path per segment *)
 Fixpoint psm_extend_loop_c (st : scheme_type) (path_start : N) (s : list N) (segments : list (list N))
   : option (list N) * N :=
   match segments with
   | [] => (Some s, 1)
   | seg :: rest =>
-      if list_eqb seg [46] || list_eqb seg [46; 46] then
-        let (o, n) := psm_extend_loop_c st path_start s rest in (o, n + 1)
+      let (skip, k) := psm_skips_c seg in
+      if skip then
+        let (o, n) := psm_extend_loop_c st path_start s rest in (o, n + 1 + k)
       else
         let s1 := if (path_start + 1 <? nlen s) || (nlen s =? path_start) then s ++ [47] else s in
         match parse_path_c CPathSegmentSetter st true path_start s1 seg with
-        | (POk (s2, _, _), c) => let (o, n) := psm_extend_loop_c st path_start s2 rest in (o, n + c + 2)
-        | (_, c) => (None, c + 2)
+        | (POk (s2, _, _), c) => let (o, n) := psm_extend_loop_c st path_start s2 rest in (o, n + c + 2 + k)
+        | (_, c) => (None, c + 2 + k)
         end
   end.
 End PathCost.
